@@ -4,7 +4,7 @@
 * TapTreeBuilder::{new,push_inner_node,push_leaf,finalize}
                                           complete (carry loop <= 127 iterations, unwind 130, unwinding assertions on)
 * TapTreeBuilder end-to-end               bounded: every pre-order listing with <= 4 leaves
-* TapTree::{leaf,combine}                 bounded: 1+1, 1+2, 2+1 leaves, depths fully symbolic u8
+* TapTree::{leaf,combine}                 bounded: 1+1 and 1+2 leaves, depths fully symbolic u8
 * TrSpendInfo::nodes_from_tap_tree + TrSpendInfoIter::next (Merkle pass)
                                           bounded: SINGLE-LEAF tree only (hash combiner / leaf hash / Miniscript::encode
                                           stubbed).  Trees with >= 2 leaves are EXCLUDED: CBMC needs > 40 GB (see
@@ -77,7 +77,7 @@ HARNESSES = [
          bound="%d + %d leaves, every u8 depth" % (a, b),
          tags=["C15:combine.err_iff_some_depth_exceeds_128", "C15:combine.leaf_count",
                "C15:combine.left_first_depth_plus_one", "C15:combine.right_after_left_depth_plus_one"])
-    for a, b in ((1, 1), (1, 2), (2, 1))
+    for a, b in ((1, 1), (1, 2))
 ] + [
     dict(name="taptree_leaf", fn="TapTree::leaf + leaves", props=("C15", "C11"), kind="bounded", bound="one leaf",
          tags=["C15:taptree_leaf.depth_zero", "C15:taptree_leaf.iter_yields", "C15:taptree_leaf.iter_depth_and_leaf",
